@@ -205,7 +205,7 @@ class C20(Prop):
         for a, k in (([0.0, 0.0, 0.0, 5.0], "rect"), ([1.0, 2.0, 4.0, 0.0], "rect"), ([3.0, 3.0, 0.0], "circle"), ([3.0, 3.0, 0.0, 2.0], "ellipse")):
             yield {"k": "built", "spec": {"viewbox": None, "size": [100.0, 100.0], "items": [
                 {"k": "rect", "tf": None, "id": "ok", "a": [1.0, 1.0, 2.0, 2.0]}, {"k": k, "tf": None, "id": "zero", "a": a}]}, "files": False, "zero": True}
-        n = 600 if tier == "quick" else 15000
+        n = 600 if tier == "quick" else 8000
         for i in range(n):
             if i % 3 == 2:
                 yield {"k": "built", "spec": built_tree(rng), "files": i % 9 == 2}
